@@ -2,6 +2,7 @@
 from __future__ import annotations
 
 import ast
+import typing
 
 from ..cfg import CFG
 from ..core import AnalysisError, own_nodes, parent, short, unparse
@@ -56,7 +57,10 @@ def check_explicit_raises(ctx):
                     "the only call of roll_up() in the reader is dominated by a test that the caption style is RollUp",
                     "SccCaptionParagraph.roll_up raises RuntimeError for non-roll-up captions and a call site in the reader no longer checks the style first")
         elif scope == "ttconv.vtt.tokenizer:CueTextTokenizer" and name == "RuntimeError":
-          ctx.check(states_exhaustive(ix), "EXC-raise", key + "|unreachable: every state has a branch", ctx.where(m, node),
+          se = states_exhaustive(ix)
+          if se is None:
+            raise AnalysisError("CueTextTokenizer: the state enumeration compared against the state variable was not found")
+          ctx.check(se, "EXC-raise", key + "|unreachable: every state has a branch", ctx.where(m, node),
                     "the final else of the state dispatch is unreachable: every _State member has its own branch",
                     "the tokenizer's `Bad state` RuntimeError is reachable: a _State member has no branch in the dispatch chain")
         else:
@@ -85,19 +89,29 @@ def rollup_guarded(ix) -> bool:
   return True
 
 
-def states_exhaustive(ix) -> bool:
+def states_exhaustive(ix) -> typing.Optional[bool]:
+  """Every member of the tokenizer's state enumeration has its own `state is <member>` branch, and
+  only members are ever assigned to the state variable (None: the enumeration was not found)."""
+  from ..core import ClassInfo
   f = ix.func("ttconv.vtt.tokenizer:CueTextTokenizer")
-  st = ix.classes.get("ttconv.vtt.tokenizer:CueTextTokenizer.<locals>._State")
-  if st is None:
-    return False
-  members = {n for n, _ in ix.enum_members(st)}
-  tested = set()
+  # the state variable: the local compared with `is` against members of one Enum class
+  cands = {}
   for n in own_nodes(f.node):
-    if isinstance(n, ast.Compare) and unparse(n.left) == "state" and isinstance(n.ops[0], (ast.Is, ast.Eq)):
-      tested.add(unparse(n.comparators[0]).split(".")[-1])
+    if isinstance(n, ast.Compare) and isinstance(n.left, ast.Name) and len(n.ops) == 1 and isinstance(n.ops[0], (ast.Is, ast.Eq)) and isinstance(n.comparators[0], ast.Attribute):
+      cexpr = n.comparators[0].value
+      r = ix.resolve(f.module, cexpr, func=f)
+      if r is None and isinstance(cexpr, ast.Name):
+        r = ix.classes.get(f"{f.qualname}.<locals>.{cexpr.id}")
+      if isinstance(r, ClassInfo) and ix.is_enum(r):
+        cands.setdefault((n.left.id, r.qualname), set()).add(n.comparators[0].attr)
+  if not cands:
+    return None
+  (var, cq), tested = max(cands.items(), key=lambda kv: len(kv[1]))
+  st = ix.classes[cq]
+  members = {n for n, _ in ix.enum_members(st)}
   assigned = set()
   for n in own_nodes(f.node):
-    if isinstance(n, ast.Assign) and unparse(n.targets[0]) == "state":
+    if isinstance(n, ast.Assign) and unparse(n.targets[0]) == var:
       assigned.add(unparse(n.value).split(".")[-1])
   return members <= tested and assigned <= members
 
